@@ -24,7 +24,7 @@ From ClapModel Require Import Base.Bytes Base.Machine Base.Utf8.
 From ClapModel Require Import Parse.Matcher Parse.Errors Parse.Validator Parse.Parser.
 From ClapModel Require Import ParseProofs.Spelling ParseProofs.ErrorSound.
 From ClapModel Require Import Parse.Cmd Parse.Build Parse.Valid Complete.EngineModel Complete.EngineProofs.
-From ClapModel Require Import Complete.EngineAccept Complete.EngineFuel Complete.EngineComplete.
+From ClapModel Require Import Complete.EngineAccept Complete.EngineFuel Complete.EngineComplete Complete.EngineLevel.
 From ClapModel Require Gen.EngineSites.
 From Coq Require Import ZArith.
 Open Scope N_scope.
@@ -320,3 +320,40 @@ Theorem C18_long_alias_value_refuted : exists tbl c a alias v,
     complete_arg tbl [] c 1 (Opt a 1) = COk [mkCand v None false].
 Proof. exact long_alias_value_refuted. Qed.
 Print Assumptions C18_long_alias_value_refuted.
+
+(** * Round 2: the level the engine completes at is the level the parser model reaches *)
+
+(** [lvl_rel pc cur]: the parser's node (built lazily: [build_self] at the root, [build_subcommand] on
+    dispatch) and the engine's node (a node of the tree built by [Command::build] = [build_full]) have the same
+    arguments and settings and pairwise related children.  Class: no node of the user's tree is built
+    already ([tree_all unb]; decidable: [unb_tree]).  The roots are related ... *)
+Theorem C18_level_root : forall f c0 b, tree_all unb c0 -> build_full f c0 = BOk b -> lvl_rel (build_self c0) b.
+Proof. exact level_root. Qed.
+Print Assumptions C18_level_root.
+
+(** ... related nodes are the same level in the sense of the acceptance theorems (same arguments, same
+    subcommand names and aliases) and have the same settings ... *)
+Theorem C18_level_same : forall pc cur, lvl_rel pc cur ->
+  same_level pc cur /\ forall f, is_set f pc = is_set f cur.
+Proof. exact (fun pc cur H => conj (lvl_rel_same_level pc cur H) (fun f => lvl_rel_is_set pc cur f H)). Qed.
+Print Assumptions C18_level_same.
+
+(** ... and a subcommand name or alias (of a subcommand not called [help]) typed where a new argument may
+    start moves BOTH machines to related nodes: the shadow parse descends ([shadow_step]), the parser's
+    token loop stops with the dispatch and [build_subcommand] builds the child *)
+Theorem C18_level_step_sub : forall pc cur tok sc0 pi, lvl_rel pc cur -> assert_app pc = true ->
+  utf8_valid tok = true -> find_subcommand pc tok = Some sc0 -> c_name sc0 <> s_help ->
+  exists es pc', shadow_step tok cur pi false ValueDone = SNext es 1 false ValueDone /\
+    build_subcommand pc (c_name sc0) = Some pc' /\ lvl_rel pc' es /\
+    forall rest pos vaf st, (is_set s_args_negate_subs pc && vaf) = false ->
+      exists n', aliases_to sc0 n' = true /\ find_subcommand pc n' = Some sc0 /\
+        Parser.parse_loop pc (tok :: rest) (Parser.mkL Parser.PSValuesDone pos vaf false) st =
+        if beq n' s_help && negb (is_set s_disable_help_sub pc) then Parser.ROk (Parser.LHelpSub rest st)
+        else Parser.ROk (Parser.LSub n' false vaf st rest).
+Proof. exact level_step_sub. Qed.
+Print Assumptions C18_level_step_sub.
+
+(** [build_self] does not read what [_build_subcommand] sets (bin name, display name) *)
+Theorem C18_build_self_names : forall b d x, build_self (setnm b d x) = setnm b d (build_self x).
+Proof. exact nm_build_self. Qed.
+Print Assumptions C18_build_self_names.
